@@ -1322,6 +1322,84 @@ func (s *S3Proxy) PutBucketAcl(ctx context.Context, bucket string, data []byte) 
 	return handleError(err)
 }
 
+// reservedTags returns the tags of the bucket at the backend that belong to
+// the gateway (the stored ACL), not to the client.
+func (s *S3Proxy) reservedTags(ctx context.Context, bucket string) ([]types.Tag, []types.Tag, error) {
+	out, err := s.client.GetBucketTagging(ctx, &s3.GetBucketTaggingInput{
+		Bucket: &bucket,
+	})
+	if err != nil {
+		var ae smithy.APIError
+		if errors.As(err, &ae) && strings.Contains(ae.ErrorCode(), "NoSuchTagSet") {
+			return nil, nil, nil
+		}
+		return nil, nil, handleError(err)
+	}
+
+	var reserved, client []types.Tag
+	for _, tag := range out.TagSet {
+		if tag.Key != nil && *tag.Key == aclKey {
+			reserved = append(reserved, tag)
+		} else {
+			client = append(client, tag)
+		}
+	}
+	return reserved, client, nil
+}
+
+func (s *S3Proxy) GetBucketTagging(ctx context.Context, bucket string) (map[string]string, error) {
+	_, client, err := s.reservedTags(ctx, bucket)
+	if err != nil {
+		return nil, err
+	}
+	if len(client) == 0 {
+		return nil, s3err.GetAPIError(s3err.ErrBucketTaggingNotFound)
+	}
+
+	tags := make(map[string]string, len(client))
+	for _, tag := range client {
+		tags[backend.GetStringFromPtr(tag.Key)] = backend.GetStringFromPtr(tag.Value)
+	}
+	return tags, nil
+}
+
+func (s *S3Proxy) PutBucketTagging(ctx context.Context, bucket string, tags map[string]string) error {
+	if _, ok := tags[aclKey]; ok {
+		return s3err.GetAPIError(s3err.ErrInvalidTag)
+	}
+
+	// the gateway's own tag stays in place whatever the client does
+	tagSet, _, err := s.reservedTags(ctx, bucket)
+	if err != nil {
+		return err
+	}
+	for key, val := range tags {
+		tagSet = append(tagSet, types.Tag{
+			Key:   &key,
+			Value: &val,
+		})
+	}
+
+	if len(tagSet) == 0 {
+		_, err = s.client.DeleteBucketTagging(ctx, &s3.DeleteBucketTaggingInput{
+			Bucket: &bucket,
+		})
+		return handleError(err)
+	}
+
+	_, err = s.client.PutBucketTagging(ctx, &s3.PutBucketTaggingInput{
+		Bucket: &bucket,
+		Tagging: &types.Tagging{
+			TagSet: tagSet,
+		},
+	})
+	return handleError(err)
+}
+
+func (s *S3Proxy) DeleteBucketTagging(ctx context.Context, bucket string) error {
+	return s.PutBucketTagging(ctx, bucket, nil)
+}
+
 func (s *S3Proxy) PutObjectTagging(ctx context.Context, bucket, object string, tags map[string]string) error {
 	tagging := &types.Tagging{
 		TagSet: []types.Tag{},
